@@ -15,6 +15,7 @@ OBLIGATIONS = [
     "Pkgcore.C46.needed_files_left",
     "Pkgcore.C46.left_exactly",
     "Pkgcore.C46.removed_exactly",
+    "Pkgcore.C46.no_targeted_package_removes_nothing",
 ]
 TRUSTED = [
     "which packages the target / exclusion restrictions match and which files the file-name patterns guessed from the targeted packages select are "
@@ -29,7 +30,7 @@ ASSUMPTIONS = [
 ]
 RULE = ("real scratch ebuild repositories (6-9 packages over related names foo / foo-bar / libfoo / baz, SRC_URI with shared and per-version files, "
         "RESTRICT=fetch on some), a random installed set, a real scratch distdir holding current, stale, shared and unrelated files with random sizes "
-        "and ages, and random option combinations: targets (names, globs, versioned atoms), --installed/--exists/--fetch-restricted, exclusion patterns, "
+        "and ages, and random option combinations: targets (names, globs, versioned atoms, targets matching no package, targets excluded again), --installed/--exists/--fetch-restricted, exclusion patterns, "
         "--modified, --size; non-trivial = at least one file removed while at least one selected file is kept because it is needed")
 
 NAMES = ["foo", "foo-bar", "libfoo", "baz", "qux"]
@@ -77,7 +78,7 @@ def run(ctx):
             return getattr(self._real, n)
 
     try:
-        for ri in range(ctx.n(3, 30)):
+        for ri in range(ctx.n(2, 30)):
             pkgs = gen_repo(rng)
             tree = EbuildRepo(os.path.join(scratch, f"repo{ri}"), repo_id="test", arches=("x86",))
             for p in pkgs:
@@ -96,7 +97,7 @@ def run(ctx):
             names = sorted({p["name"] for p in pkgs})
 
             cases, reqs = [], []
-            for ci in range(ctx.n(300, 500)):
+            for ci in range(ctx.n(330, 500)):
                 # ---- the scenario
                 installed = []
                 for _ in range(rng.choice([0, 1, 2, 3])):
@@ -112,14 +113,21 @@ def run(ctx):
                 present.update(rng.sample(["unrelated.zip", "notes.txt", "Foo-3.TAR.GZ", "foo_1.tar.gz", "foobar-1.tar.gz"], rng.randint(0, 3)))
                 files = [{"name": f, "age_days": rng.choice([0, 1, 10, 40, 400]), "size": rng.choice([0, 10, 1023, 1024, 5000])} for f in sorted(present)]
                 k = rng.random()
-                if k < 0.35:
+                if k < 0.3:
                     targets = []
+                elif k < 0.42:
+                    # targets that may match no package at all: unknown names, versions nobody provides, foreign categories
+                    p = rng.choice(pkgs)
+                    targets = rng.sample(["cat/nonexistent", "=cat/" + p["name"] + "-9.9", "other/" + p["name"], "zz*", ">cat/" + p["name"] + "-50",
+                                          "cat/" + p["name"] + ":7"], rng.choice([1, 1, 2]))
                 elif k < 0.7:
                     targets = [rng.choice(["cat/" + rng.choice(names), rng.choice(names), rng.choice(names)[:2] + "*", "cat/*"])]
                 else:
                     p = rng.choice(pkgs)
                     targets = rng.sample(["=" + p["cpv"], "cat/" + rng.choice(names), "*/" + rng.choice(names)], 2)
-                excludes = None if rng.random() < 0.65 else [rng.choice(["cat/" + rng.choice(names), rng.choice(names)[:3] + "*", "=" + rng.choice(pkgs)["cpv"]])]
+                excludes = None if rng.random() < 0.6 else [rng.choice(["cat/" + rng.choice(names), rng.choice(names)[:3] + "*", "=" + rng.choice(pkgs)["cpv"]])]
+                if targets and rng.random() < 0.08:
+                    excludes = list(targets)              # the targets are excluded again: nothing is left to clean
                 o = {"installed": rng.random() < 0.35, "exists": rng.random() < 0.4, "fetch_restricted": rng.random() < 0.25,
                      "modified": rng.choice([None, None, None, None, "5d", "30d", "1y"]), "size": rng.choice([None, None, None, None, "1K", "11B", "4K"]),
                      "pretend": rng.random() < 0.05}
@@ -208,7 +216,10 @@ def run(ctx):
                     needed |= {f for p in req["repo"] if p["fetch"] for f in p["distfiles"]}
                 if req["opts"]["has_exclude"]:
                     needed |= {f for p in req["repo"] if p["excluded"] for f in p["distfiles"]}
-                sel = set(selected) if has_restrict else set(fileinfo)
+                # with a target restriction only the files its patterns select may go, and none when it matches no package
+                any_targeted = any(p["targeted"] for p in req["repo"])
+                sel = (set(selected) if any_targeted else set()) if has_restrict else set(fileinfo)
+                ctx.count("targets_" + ("none" if not has_restrict else "match_some" if any_targeted else "match_nothing"))
                 kept_needed = sel & needed & set(fileinfo)
                 ctx.case(scen, bool(removed) and bool(kept_needed), key=str(scen))
                 ctx.count("opts_" + "".join(c for c, f in zip("IEfTXms", [o["installed"], o["exists"], o["fetch_restricted"], scen["targets"], scen["excludes"],
